@@ -332,7 +332,7 @@ pub fn build_world(seed: u64, idx: u64, out: &mut RunOut) -> World {
   }
   let dcfg = DocCfg::swarm(&mut rk);
   let enc = EncCfg::swarm(&mut rk);
-  let source = rk.weighted(&[4, 8, 3, 2, 1, 1, 1, 1, 2, 1]);
+  let source = rk.weighted(&[4, 8, 3, 2, 1, 1, 1, 1, 2, 1, 1]);
   match source {
     0 => {
       // valid data at rest: corpus
@@ -400,6 +400,16 @@ pub fn build_world(seed: u64, idx: u64, out: &mut RunOut) -> World {
       w.csv = Some(to_csv(&gen_csv_doc(&mut rw, &dcfg), &mut rw).into_bytes());
       w.origin = "grammar".into();
       out.probe("src_grammar");
+    }
+    10 => {
+      // occurrence arithmetic and map-entry bookkeeping
+      let (schema, doc, raw) = occurrence_edge_case(&mut rw);
+      w.schema = schema.into_bytes();
+      w.json = Some(to_json(&doc).into_bytes());
+      w.cbor = Some(raw.unwrap_or_else(|| to_cbor_min(&doc)));
+      w.csv = Some("1,a\n".to_string().into_bytes());
+      w.origin = "occurrence-edge".into();
+      out.probe("src_occurrence_edge");
     }
     9 => {
       // hostile CBOR: a well-formed item written with every encoding liberty (indefinite strings with chunks,
@@ -503,7 +513,7 @@ pub fn build_world(seed: u64, idx: u64, out: &mut RunOut) -> World {
     }
   }
   // faults on the data at rest
-  if source != 4 && source != 5 && source != 6 && source != 7 && source != 8 && source != 9 && rk.chance(2, 3) {
+  if source != 4 && source != 5 && source != 6 && source != 7 && source != 8 && source != 9 && source != 10 && rk.chance(2, 3) {
     let nf = rf.range(1, 3);
     let which = rf.below(4);
     let mut log = Vec::new();
